@@ -935,8 +935,13 @@ def replay(ctx, payload):
         i = args["index"]
         one = impl_call(case["shape"], case["prm"], [case["points"][i]])
         if not isinstance(res, list) or one != [res[i]]:
-            print("FAIL batch vs single:", res[i] if isinstance(res, list) else res, one)
-            ok = False
+            cl = Exact(case["shape"], case["prm"]).classify(case["points"][i],
+                                                            scale_L(case["shape"], case["prm"], case["points"][i]))
+            if cl != "band":
+                print("FAIL batch vs single:", res[i] if isinstance(res, list) else res, one, "class", cl)
+                ok = False
+            else:
+                print("batch and single-row results differ inside the 1e-9*L band (np.dot rounding): tie")
     if args.get("check") == "support" and args.get("dir") and isinstance(res, list):
         d = np.ascontiguousarray(np.array(args["dir"], dtype=float))
         s = np.asarray(make_collider(case["shape"], case["prm"]).support_function(d), dtype=float)
